@@ -115,7 +115,89 @@ def fdiv(a, b):
     return a / b
 
 
+INF = float("inf")
+NAN = float("nan")
+
+
+def is_neg(x):
+    return struct.pack("<d", x)[7] & 0x80 != 0
+
+
+def py_pow_special(x, y):
+    """IEEE 754-2008 9.2.1 exceptional cases of pow on Python floats (written from the standard's
+    list, independently of the Coq table); None for the ordinary pairs"""
+    if y == 0.0 or x == 1.0:
+        return 1.0
+    if x != x or y != y:
+        return NAN
+    yinf = y in (INF, -INF)
+    yint = (not yinf) and y.is_integer()
+    yodd = yint and abs(y) < 2.0 ** 53 and int(y) % 2 == 1
+    if x == 0.0:
+        neg = is_neg(x) and yodd
+        if y < 0:
+            return -INF if neg else INF
+        return -0.0 if neg else 0.0
+    if x in (INF, -INF):
+        neg = x < 0 and yodd
+        if y < 0:
+            return -0.0 if neg else 0.0
+        return -INF if neg else INF
+    if yinf:
+        if abs(x) == 1.0:
+            return 1.0
+        return INF if (abs(x) > 1.0) == (y > 0) else 0.0
+    if x < 0 and not yint:
+        return NAN
+    return None
+
+
+def py_fmod(a, b):
+    if a != a or b != b or a in (INF, -INF) or b == 0.0:
+        return NAN
+    if b in (INF, -INF):
+        return a
+    return __import__("math").fmod(a, b)      # C fmod: exact, sign of the dividend
+
+
+def show_bits(is32, r):
+    if r != r:
+        return "nan"
+    return str(bits_of_f32(r) if is32 else bits_of_f64(r))
+
+
+def powmod_oracle(is32, op, a, b):
+    """exact string for `%` and the special cases of `**`; ("approx", value, rel_tol) for ordinary
+    `**` pairs with a moderate exponent (Go's math.Pow is not correctly rounded: only gross errors
+    are the independent oracle's business there); None otherwise"""
+    if op == "mod":
+        return show_bits(is32, py_fmod(a, b))
+    r = py_pow_special(a, b)
+    if r is not None:
+        return show_bits(is32, r)
+    if abs(b) <= 1024.0:
+        try:
+            v = __import__("math").pow(a, b)
+        except (OverflowError, ValueError):
+            return None
+        lo, hi = (1e-37, 1e38) if is32 else (1e-300, 1e300)
+        if lo < abs(v) < hi:
+            return ("approx", v, 1e-6 if is32 else 1e-9)
+    return None
+
+
 def float_oracle(f):
+    if f[0] == "fp":
+        is32 = f[2] == "f32"
+        a = f32_of_bits(int(f[4])) if is32 else f64_of_bits(int(f[4]))
+        b = f32_of_bits(int(f[5])) if is32 else f64_of_bits(int(f[5]))
+        return powmod_oracle(is32, f[3], a, b)
+    if f[0] == "fpi":
+        try:
+            b = float(int(f[4]))
+        except OverflowError:
+            b = INF if int(f[4]) > 0 else -INF
+        return powmod_oracle(False, f[2], f64_of_bits(int(f[3])), b)
     if f[0] == "f":
         ty, op = f[1], f[2]
         is32 = ty == "f32"
@@ -182,6 +264,13 @@ def obs_class(obs):
     return "wrong-value"
 
 
+def approx_ok(is32, obs, v, tol):
+    if not obs.isdigit():
+        return False
+    x = f32_of_bits(int(obs)) if is32 else f64_of_bits(int(obs))
+    return x == x and abs(x - v) <= tol * abs(v)
+
+
 def kind_class(k):
     if k in ("smallint", "i64", "i32", "i16", "i8"):
         return "signed-kind"
@@ -231,8 +320,35 @@ def fclass(ty, bits):
     return "norm"
 
 
+def pclass(is32, x):
+    """class of a `**` / `%` operand: sign + what IEEE 754-2008 9.2.1 distinguishes"""
+    if x != x:
+        return "nan"
+    s = "-" if is_neg(x) else "+"
+    if x == 0.0:
+        return s + "zero"
+    if x in (INF, -INF):
+        return s + "inf"
+    if abs(x) == 1.0:
+        return s + "one"
+    if x.is_integer():
+        return s + ("oddint" if abs(x) < 2.0 ** 53 and int(x) % 2 == 1 else "evenint")
+    if abs(x) < (2.0 ** -126 if is32 else 2.0 ** -1022):
+        return s + "sub"
+    return s + "frac"
+
+
 def float_key(inp, obs, exp):
     f = inp.split()
+    if f[0] == "fp":
+        is32 = f[2] == "f32"
+        a = f32_of_bits(int(f[4])) if is32 else f64_of_bits(int(f[4]))
+        b = f32_of_bits(int(f[5])) if is32 else f64_of_bits(int(f[5]))
+        return "fp:%s:%s:%s/%s:%s" % (f[2], f[3], pclass(is32, a), pclass(is32, b), obs_class(obs))
+    if f[0] == "fpi":
+        n = int(f[4])
+        nc = "zero" if n == 0 else (("-" if n < 0 else "+") + ("big" if abs(n) >= 1 << 63 else ("odd" if n % 2 else "even")))
+        return "fpi:%s:%s/int%s:%s" % (f[2], pclass(False, f64_of_bits(int(f[3]))), nc, obs_class(obs))
     if f[0] == "f":
         return "f:%s:%s:%s/%s" % (f[1], f[2], fclass(f[1], f[3]), fclass(f[1], f[4]))
     return "cv:%s" % f[1]
@@ -263,7 +379,7 @@ def run_stream(ctx, stream, harness, model, n, extra, oracle, keyfn, rule, corpu
             rc2 = 124
     if rc2 != 0:
         ctx.broke("correspondence %s: model driver exited %d" % (stream, rc2))
-    total = mism = omism = checked_by_oracle = 0
+    total = mism = omism = checked_by_oracle = nonspecial = approx = 0
     distinct = set()
     dist = {}
     samples = []
@@ -278,7 +394,17 @@ def run_stream(ctx, stream, harness, model, n, extra, oracle, keyfn, rule, corpu
             exp = le[1] if len(le) >= 2 and le[0] == cid else None
             total += 1
             f = inp.split()
-            cls = " ".join(f[:2]) if f[0] in ("f", "cv") else "%s %s" % (f[0], f[3] if f[0] in ("bin", "un", "sh") else f[2])
+            if f[0] in ("fp", "fpi"):
+                cls = "%s %s %s" % (f[0], f[2], f[3]) if f[0] == "fp" else "fpi fl %s" % f[2]
+            else:
+                cls = " ".join(f[:2]) if f[0] in ("f", "cv") else "%s %s" % (f[0], f[3] if f[0] in ("bin", "un", "sh") else f[2])
+            by_ref = False
+            if exp == "nonspecial":
+                # ordinary `**` pair: outside the Coq table; the expectation is Go's math.Pow as
+                # computed by the harness itself (4th column)
+                by_ref = True
+                nonspecial += 1
+                exp = p[3] if len(p) >= 4 else None
             dist[cls] = dist.get(cls, 0) + 1
             if len(samples) < 2 or (total % 997 == 0 and len(samples) < 4):
                 samples.append({"input": inp, "observed": obs})
@@ -291,9 +417,17 @@ def run_stream(ctx, stream, harness, model, n, extra, oracle, keyfn, rule, corpu
             bad = None
             if exp != obs:
                 mism += 1
-                bad = ("implementation differs from the proved model", exp)
+                bad = ("implementation differs from Go's math.Pow on the same operands (trusted reference for ordinary pairs)"
+                       if by_ref else "implementation differs from the proved model", exp)
             o = oracle(f)
-            if o is not None:
+            if isinstance(o, tuple):
+                # loose independent sanity bound (libm pow) on an ordinary `**` pair
+                approx += 1
+                if not approx_ok(f[0] == "fp" and f[2] == "f32", obs, o[1], o[2]):
+                    omism += 1
+                    if bad is None:
+                        bad = ("implementation is not within %g (relative) of libm pow" % o[2], repr(o[1]))
+            elif o is not None:
                 checked_by_oracle += 1
                 if o != obs:
                     omism += 1
@@ -308,8 +442,11 @@ def run_stream(ctx, stream, harness, model, n, extra, oracle, keyfn, rule, corpu
                     reported[k] = reported.get(k, 0) + 1
                     ctx.fail(k, "%s: implementation %s, expected %s" % (inp, obs, bad[1]), stream=stream, case=inp,
                              impl=obs, model=exp, oracle=bad[0])
+    extra = {}
+    if nonspecial or approx:
+        extra = {"pow_ordinary_pairs_checked_against_go_math_pow": nonspecial, "pow_ordinary_pairs_with_libm_sanity_bound": approx}
     ctx.stream(stream, total, len(distinct), rule, samples, dist, mismatches=mism, oracle_mismatches=omism,
-               checked_by_independent_oracle=checked_by_oracle)
+               checked_by_independent_oracle=checked_by_oracle, **extra)
     return total
 
 
@@ -384,6 +521,172 @@ def elk_stream(ctx):
                "expected values are instances of the proved model", [{"input": s, "observed": w} for s, w in ELK_CASES[:3]], {})
 
 
+# ------------------------------------------------------------------ `**` and `%` through Elk programs
+
+def f32_repr(x):
+    for p in range(1, 10):
+        r = "%.*g" % (p, x)
+        if round32(float(r)) == x:
+            break
+    if "e" not in r and "." not in r and "n" not in r:
+        r += ".0"
+    return r
+
+
+FTY = {"fl": ("Float", "", ""), "f64": ("Float64", "f64", ".to_float64"), "f32": ("Float32", "f32", ".to_float32")}
+
+
+def elk_lit(ty, x):
+    """Elk source for the float x of type ty (exact: shortest round-trip decimal)"""
+    _, suf, conv = FTY[ty]
+    if x != x:
+        return "Float::NAN" + conv
+    if x in (INF, -INF):
+        return ("Float::INF" if x > 0 else "Float::NEG_INF") + conv
+    r = (f32_repr(abs(x)) if ty == "f32" else repr(abs(x))).replace("e+", "e")
+    if "e" in r and "." not in r:
+        m, e = r.split("e")
+        r = m + ".0e" + e
+    return "(-%s%s)" % (r, suf) if is_neg(x) else r + suf
+
+
+def parse_inspect(ty, line):
+    """bits (as the harness prints them) of an inspected Float / Float64 / Float32, or None"""
+    cname, suf, _ = FTY[ty]
+    t = line.strip()
+    pre = "Std::%s::" % cname
+    if t.startswith(pre):
+        v = {"INF": INF, "NEG_INF": -INF, "NAN": NAN}.get(t[len(pre):])
+    else:
+        if suf:
+            if not t.endswith(suf):
+                return None
+            t = t[:-len(suf)]
+        try:
+            v = float(t)
+        except ValueError:
+            return None
+    if v is None:
+        return None
+    return show_bits(ty == "f32", v)
+
+
+ELK_SMALL = [0.0, 0.5, 1.0, 3.0, INF]           # both signs, plus the values below: all ordered pairs
+ELK_SMALL_EXTRA = [NAN, 2.0, 2.5]
+ELK_WIDE64 = [9007199254740991.0, 9007199254740992.0, 4503599627370495.5, 0.1, 1.0 / 3, 1023.0, 5.0, 4.0, 0.25, 1.5,
+              1.7976931348623157e308, 5e-324, 2.2250738585072014e-308, 1.0000000000000002, 0.9999999999999999]
+ELK_WIDE32 = [16777215.0, 16777216.0, 8388607.5, round32(0.1), round32(1.0 / 3), 127.0, 5.0, 4.0, 0.25, 1.5,
+              f32_of_bits(0x7F7FFFFF), f32_of_bits(1), f32_of_bits(0x00800000), f32_of_bits(0x3F800001), f32_of_bits(0x3F7FFFFF)]
+
+
+def float_elk_stream(ctx, harness, model):
+    """`**` and `%` of Float / Float64 / Float32 evaluated by real Elk programs, once with literal
+    operands (the compile-time folder) and once with typed locals (the VM opcode); expectation:
+    the Coq model on the same bit patterns (Go's math.Pow for ordinary `**` pairs)."""
+    stream = "c07.felk"
+    elk = vlib.build_elk()
+    rng = ctx.rng(stream)
+    wd = os.path.join(ctx.workdir, "felk")
+    os.makedirs(wd, exist_ok=True)
+    small = [s * v for v in ELK_SMALL for s in (1.0, -1.0)] + ELK_SMALL_EXTRA
+    plans = []          # (prog id, ty, op, [(a, b)])
+    for ty in ("fl", "f64", "f32"):
+        wide = small + [s * v for v in (ELK_WIDE32 if ty == "f32" else ELK_WIDE64) for s in (1.0, -1.0)]
+        for op in ("pow", "mod"):
+            pairs = [(a, b) for a in small for b in small]
+            pairs += [(rng.choice(wide), rng.choice(wide)) for _ in range(ctx.n(40, 400))]
+            plans.append(("%s_%s" % (ty, op), ty, op, pairs))
+    # expectations: harness (value-level result + Go reference) and model on the same cases
+    def tobits(ty, x):
+        if x != x:
+            return "2143289344" if ty == "f32" else "9221120237041090560"
+        return show_bits(ty == "f32", x)
+    cases = os.path.join(wd, "cases.txt")
+    with open(cases, "w") as f:
+        for _, ty, op, pairs in plans:
+            for a, b in pairs:
+                f.write("fp val %s %s %s %s\n" % (ty, op, tobits(ty, a), tobits(ty, b)))
+    rc, out = vlib.sh([harness, "-seed", "0", "-n", "0", "-tier", ctx.tier, "-extra", "floatcases", "-input", cases],
+                      env=vlib.elk_env(), timeout=600)
+    if rc != 0:
+        ctx.broke("correspondence %s: harness exited %d" % (stream, rc))
+        return
+    obs_path = os.path.join(wd, "cases.obs")
+    with open(obs_path, "w") as f:
+        f.write(out)
+    with open(obs_path) as inp:
+        mo = subprocess.run([model], stdin=inp, stdout=subprocess.PIPE, stderr=subprocess.PIPE, timeout=600)
+    if mo.returncode != 0:
+        ctx.broke("correspondence %s: model driver exited %d" % (stream, mo.returncode))
+        return
+    hl = [l.split("\t") for l in out.splitlines() if l.strip()]
+    ml = [l.split("\t") for l in mo.stdout.decode().splitlines() if l.strip()]
+    expect = []
+    for h, mline in zip(hl, ml):
+        e = mline[1] if len(mline) > 1 and mline[0] == h[0] else None
+        if e == "nonspecial":
+            e = h[3] if len(h) > 3 else None
+        expect.append((h[1], e))
+    progs = []
+    for pid_, ty, op, pairs in plans:
+        cname = FTY[ty][0]
+        sym = "**" if op == "pow" else "%"
+        src = ["var a: %s = %s" % (cname, elk_lit(ty, 1.0)), "var b: %s = %s" % (cname, elk_lit(ty, 1.0))]
+        for a, b in pairs:
+            la, lb = elk_lit(ty, a), elk_lit(ty, b)
+            src.append("println((%s %s %s).inspect)" % (la, sym, lb))
+            src.append("a = %s" % la)
+            src.append("b = %s" % lb)
+            src.append("println((a %s b).inspect)" % sym)
+        progs.append((pid_, "\n".join(src) + "\n"))
+    res = vlib.run_programs(elk, progs, wd, timeout=60)
+    again = [p for p in progs if res[p[0]][2] == "timeout"]
+    if again:
+        res.update(vlib.run_programs(elk, again, wd, timeout=180))
+    total = 0
+    distinct = set()
+    dist = {}
+    samples = []
+    reported = {}
+    idx = 0
+    for pid_, ty, op, pairs in plans:
+        rc, out, cls = res[pid_]
+        lines = [l for l in out.splitlines() if l.strip()]
+        exps = expect[idx: idx + len(pairs)]
+        idx += len(pairs)
+        if cls != "ok" or len(lines) != 2 * len(pairs):
+            ctx.fail("felk:%s:%s:program-%s" % (ty, op, cls), "the Elk program of %d `%s` expressions on %s did not run to completion: %s"
+                     % (len(pairs), "**" if op == "pow" else "%", FTY[ty][0], (lines[-1][:200] if lines else "")),
+                     stream=stream, case=pid_, impl=cls, model="ok", oracle="every `**` / `%` of two floats of one type evaluates")
+            continue
+        for i, ((a, b), (inp, exp)) in enumerate(zip(pairs, exps)):
+            for form, line in (("folded", lines[2 * i]), ("typed", lines[2 * i + 1])):
+                total += 1
+                got = parse_inspect(ty, line)
+                k0 = "%s %s %s" % (ty, op, form)
+                dist[k0] = dist.get(k0, 0) + 1
+                distinct.add((inp, form))
+                if len(samples) < 3:
+                    samples.append({"input": "%s [%s] %s %s %s" % (inp, form, elk_lit(ty, a), "**" if op == "pow" else "%", elk_lit(ty, b)),
+                                    "observed": line})
+                if exp is None:
+                    ctx.broke("correspondence %s: no expectation for %s" % (stream, inp))
+                    continue
+                if got != exp:
+                    k = "felk:" + form + ":" + float_key(inp, got if got is not None else "other", exp)[3:]
+                    if reported.get(k, 0) < 2:
+                        reported[k] = reported.get(k, 0) + 1
+                        ctx.fail(k, "`%s %s %s` (%s, %s operands) prints %s = %s, expected %s" %
+                                 (elk_lit(ty, a), "**" if op == "pow" else "%", elk_lit(ty, b), FTY[ty][0], form, line.strip(), got, exp),
+                                 stream=stream, case=inp, impl=got, model=exp,
+                                 oracle="Elk program result differs from the model (IEEE 754-2008 9.2.1 table / exact remainder / Go math.Pow)")
+    ctx.stream(stream, total, len(distinct),
+               "`**` and `%` on Float, Float64, Float32 in Elk programs: all ordered pairs of {+-0, +-0.5, +-1, +-3, +-inf, NaN, 2, 2.5} "
+               "plus seeded pairs from a wider corner set (largest odd integer, 2^p, largest non-integer, subnormals, extremes, "
+               "neighbours of 1), each once with literal operands (compile-time folding) and once through typed locals (VM opcode); "
+               "printed results parsed back to bit patterns", samples, dist)
+
+
 def run(ctx):
     ctx.explanation = (
         "Integers: Coq theorems, generic in width w (1 < w <= 64) and signedness, over ALL values of the type and ALL "
@@ -396,11 +699,27 @@ def run(ctx):
         "independent Python oracle. Floats: the model's operations are Flocq's binary64/binary32 operations; proved (from "
         "Flocq) that finite non-overflowing + - * / round the exact real result once at the operand's own precision "
         "(binary32 for Float32), comparison is real comparison, Int->Float rounds once. That the Go implementation computes "
-        "these functions is differential-tested on bit patterns (NaN payloads canonicalised), not proved. Float % and ** "
-        "(math.Mod/math.Pow), Float->sized-int conversions and to_int of NaN/Inf are outside the claim.")
+        "these functions is differential-tested on bit patterns (NaN payloads canonicalised), not proved. "
+        "Float / Float64 / Float32 `%` and the special cases of `**` are INSIDE the claim: `%` has an exact Coq model "
+        "(operands aligned to integers, integer remainder, converted back) proved, for every binary format, to satisfy "
+        "x = q*y + r with q an integer, |r| < |y|, sign r = sign x (also for a zero result), without any rounding "
+        "(C07_float_mod_aligned on integers, fifth clause of C07_float_ieee on the reals); `**` has the table of exceptional "
+        "cases of IEEE 754-2008 9.2.1 written on the structure of the operands (pow_special), proved clause by clause and "
+        "total on exceptional operands (C07_float_pow_special_table, C07_float_pow_integrality; |x| against 1 and x = +1 are "
+        "the real comparisons). Both are tied to the Go code by the c07.float stream (all ordered pairs of a 57-value corner "
+        "set per width on every run, through the value dispatchers, the typed methods and the class natives, plus seeded "
+        "operands and Float op Int) and by c07.felk (Elk programs: folded literals and typed locals), with an independent "
+        "Python oracle (C fmod; a separately written 9.2.1 table). ORDINARY `**` pairs (both operands finite, non-zero, "
+        "x > 0 or y an integer) are NOT modelled: the implementation's result is compared with Go's math.Pow evaluated by "
+        "the harness itself on the same operands at binary64 and rounded to the width (trusted reference; it is not "
+        "correctly rounded, so this is agreement with Go, not with IEEE's recommended pow), plus a loose libm bound "
+        "(1e-9 relative, exponents up to 1024) that catches gross errors only. Float->sized-int conversions and to_int of "
+        "NaN/Inf are outside the claim.")
     ctx.trusted_base += [
         "Flocq 4.1.0 (IEEE-754 formalisation) and the standard-library real-number axioms it uses",
         "Go's arithmetic on sized integers and float32/float64 as compiled for amd64 (validated by the streams, not proved)",
+        "Go's math.Pow as the reference for `**` on ordinary (non-exceptional) operand pairs; Python's math.fmod / math.pow (C libm) "
+        "in the independent oracle",
         "the model covers 64-bit systems only (Int64/UInt64 inline, UInt 64 bits wide); the reference-typed Int64/UInt64 "
         "cases of the helpers (32-bit systems) are not exercised",
     ]
@@ -418,6 +737,13 @@ def run(ctx):
     run_stream(ctx, "c07.float", h, m, ctx.n(6000, 500000), "float", float_oracle, float_key,
                "bit patterns: +-0, subnormals, min normal, +-inf, NaNs, max finite, ulp neighbours of powers of two, "
                "moderate exponents, random; Float/Float64/Float32 x + - * / <=> < <= > >= ==; Int->Float, Int64->Float32, "
-               "BigInt->Float, Float->Float32, Float32->Float64, finite Float->Int; compared as bit patterns, NaN = 'nan'",
+               "BigInt->Float, Float->Float32, Float32->Float64, finite Float->Int; compared as bit patterns, NaN = 'nan'. "
+               "`**` and `%`: on every run ALL ordered pairs of a 57-value corner set per width (+-0, +-1, +-0.5, +-2, odd / even "
+               "integers, non-integers, largest non-integer, largest odd integer, 2^p and beyond, subnormals, min normal, max, "
+               "ulp neighbours of 1, +-inf, NaN) x {Float, Float64, Float32} x {value.ExponentiateVal/ModuloVal, the typed "
+               "methods, the natives `**` `%` (and `**@1` `%@1`) registered on the classes}, then seeded pairs (small integers, "
+               "quarters, neighbours of 1, integers around 2^p, moderate magnitudes, random bits) and Float op Int (SmallInt, "
+               "BigInt incl. beyond the binary64 range); `**` on ordinary pairs is compared with Go's math.Pow computed by the harness",
                corpus=os.path.join(croot, "C07.float.txt"))
+    float_elk_stream(ctx, h, m)
     elk_stream(ctx)
